@@ -123,7 +123,8 @@ impl Check for C11 {
     }
     fn decode(&self, tape: &[u8], _stream: usize) -> Value {
         let mut t = Tape::new(tape);
-        let files = ["/virt/app/a.js", "/virt/app/lib/b.js"];
+        // (small choice first) one history in three uses file names outside ASCII
+        let files = [["/virt/app/a.js", "/virt/app/lib/b.js"], ["/virt/app/caf\u{e9}/\u{f1}u.js", "/virt/app/lib/b.js"], ["/virt/app/a.js", "/virt/app/lib/\u{540d}\u{524d} \u{1F600}.js"]][t.below(3)];
         let base_cfg = json!({
             "localVarPrefix": "test",
             "csiMethods": [
@@ -145,11 +146,17 @@ impl Check for C11 {
                     let mut orig = Value::Null;
                     if kind == 2 {
                         cfg["chainSourceMap"] = json!(true);
-                        let source = *t.pick(&["../src/a.ts", "a.ts", "sub/dir/c.ts"]);
+                        let source = *t.pick(&["../src/a.ts", "a.ts", "sub/dir/c.ts", "../src/m\u{f3}dulo \u{540d}.ts"]);
                         // sometimes the sources are relative to a sourceRoot
                         let root = *t.pick(&[None, None, Some("../root"), Some("lib/")]);
                         let (m, line_of) = original_map(&mut t, p.lines, source, root);
-                        code.push_str(&format!("//# sourceMappingURL=data:application/json;base64,{}\n", smap::encode_base64(m.to_string().as_bytes())));
+                        // the reference as a line comment, a line comment followed by blanks, or a block comment
+                        let b64 = smap::encode_base64(m.to_string().as_bytes());
+                        match t.below(4) {
+                            0 => code.push_str(&format!("//# sourceMappingURL=data:application/json;base64,{b64} \t\n")),
+                            1 => code.push_str(&format!("/*# sourceMappingURL=data:application/json;base64,{b64} */\n")),
+                            _ => code.push_str(&format!("//# sourceMappingURL=data:application/json;base64,{b64}\n")),
+                        }
                         let mut line_of = line_of;
                         let source_of = line_of.remove("$sourceOf").unwrap_or(Value::Null);
                         // expected paths: the source resolved against the sourceRoot
